@@ -363,6 +363,8 @@ def valid_utf8_everywhere(x):
 
 
 # ---------------------------------------------------------------- generators
+SPECIALS = ['#', '$', '%23', '%24', '%', '+', '++', ' ', '  ', '|', '{', '}', '{0}', '{x}', '{}', '%s', '%(a)s', '\\',
+            'gr\u00f6\u00dfe', '\u4ef7\u683c', '\u0446\u0435\u043d\u0430', 'm\u00b2', '\u0663', '\u00e9', 'A', 'z9', '0', 'None', 'null']
 RESERVED = ['|', '#', '$', '%', '+', '*', '~', ' ', '\r', '\n', '\x00', 'é', '€', '😀',
             'a', 'Z', '0', '_', '.', '-', '/', '=', '&', '?', '"']
 
@@ -373,12 +375,16 @@ class Gen:
         self.n = 0
 
     def text(self, allow_none=True, tagged=True):
-        """a value from the C05 text domain; tagged values are distinct per slot"""
+        """a value from the C05 text domain; tagged values are distinct per slot; a small share of the values are
+        untagged specials: values that ARE a reserved token, look like an escape, contain format-string or brace
+        characters, or consist of non-ASCII letters / digits only (alphanumeric in the Unicode sense)"""
         r = self.rng
         self.n += 1
         x = r.random()
         if allow_none and x < 0.08:
             return None
+        if x > 0.93:
+            return r.choice(SPECIALS)
         if x < 0.14:
             return ''
         k = r.choice([1, 1, 2, 3, 5, 8, 13])
